@@ -18,17 +18,22 @@ def _cvc5(smt, timeout_ms, rlimit=None):
     finally: os.unlink(f.name)
     return out if out in ("sat", "unsat") else "unknown"
 def work(job):
+    """portfolio, cheapest first; every configuration is a sound prover, the first `unsat` wins; only z3's default configuration and cvc5 may report `sat`"""
     name, smt, rlimit, timeout_ms, use_cvc5, both = job; t0 = time.time()
     status, backend, second = "unknown", None, None
-    if _z3(smt, Z3_CONFIGS[0][1], rlimit, timeout_ms) == "unsat": status, backend = "proved", "z3-ematch"
-    elif _z3(smt, Z3_CONFIGS[2][1], rlimit // 2, timeout_ms // 2) == "unsat": status, backend = "proved", "z3-ematch-auto"
-    if both or (status != "proved" and use_cvc5):
-        r = _cvc5(smt, min(timeout_ms, 30000)); second = r
-        if status != "proved" and r == "unsat": status, backend = "proved", "cvc5"
-    if status != "proved":
-        r = _z3(smt, Z3_CONFIGS[1][1], rlimit, timeout_ms)
-        if r == "unsat": status, backend = "proved", "z3-default"
-        elif r == "sat": status, backend = "refuted", "z3-default"
+    E, EA, D = Z3_CONFIGS[0][1], Z3_CONFIGS[2][1], Z3_CONFIGS[1][1]
+    stages = [("z3-ematch", lambda: _z3(smt, E, rlimit // 8, max(2000, timeout_ms // 8)))]
+    if use_cvc5: stages.append(("cvc5", lambda: _cvc5(smt, min(10000, max(2000, timeout_ms // 4)))))
+    stages += [("z3-ematch-auto", lambda: _z3(smt, EA, rlimit // 8, max(2000, timeout_ms // 8))),
+               ("z3-ematch", lambda: _z3(smt, dict(E, **{"smt.random_seed": 7}), rlimit // 2, timeout_ms // 2))]
+    if use_cvc5: stages.append(("cvc5", lambda: _cvc5(smt, timeout_ms // 2)))
+    stages.append(("z3-default", lambda: _z3(smt, D, rlimit, timeout_ms)))
+    for nm, run in stages:
+        r = run()
+        if nm == "cvc5" and second is None: second = r
+        if r == "unsat": status, backend = "proved", nm; break
+        if r == "sat" and nm in ("cvc5", "z3-default"): status, backend = "refuted", nm; break
+    if both and second is None: second = _cvc5(smt, min(timeout_ms, 30000))
     return name, status, backend, time.time() - t0, second
 
 def discharge_all(obs, rlimit=40_000_000, timeout_ms=120_000, procs=16, use_cvc5=True, thorough=False, short=()):
